@@ -217,7 +217,7 @@ class SymCOO:
             self.shape = tuple(d.shape)
             self.dtype = d.ldtype
             return
-        self.data, self.row, self.col = data, rows, cols
+        self._d, self._r, self._c = list(data), list(rows), list(cols)
         self.shape = tuple(int(s) for s in shape)
         self.dtype = _np.dtype(dtype)
 
@@ -230,7 +230,7 @@ class SymCOO:
         for i in range(n):
             for j in range(m):
                 acc = zero
-                for d, r, c in zip(self.data, self.row, self.col):
+                for d, r, c in zip(self._d, self._r, self._c):
                     hit = core.sand(r == i, c == j)
                     if hit is False:
                         continue
@@ -243,6 +243,32 @@ class SymCOO:
     todense = toarray
     A = property(lambda self: self.toarray())
 
+    # stored entries.  A matrix built from triplets keeps them as given (duplicates NOT summed, explicit zeros kept),
+    # as scipy does; one built from a dense array lists every cell (explicit zeros are legal stored entries).
+    def _triplets(self):
+        if self._dense is not None:
+            n, m = self.shape
+            raw = _raw(self._dense)
+            return ([raw[i, j] for i in range(n) for j in range(m)], [i for i in range(n) for j in range(m)],
+                    [j for i in range(n) for j in range(m)])
+        return self._d, self._r, self._c
+
+    @property
+    def data(self):
+        return funcs.np_array(list(self._triplets()[0]), dtype=self.dtype)
+
+    @property
+    def row(self):
+        return funcs.np_array(list(self._triplets()[1]), dtype=_np.int32)
+
+    @property
+    def col(self):
+        return funcs.np_array(list(self._triplets()[2]), dtype=_np.int32)
+
+    @property
+    def nnz(self):
+        return len(self._triplets()[0])
+
     def __len__(self):
         raise TypeError('sparse array length is ambiguous; use getnnz() or shape[0]')
 
@@ -251,7 +277,7 @@ class SymCOO:
     def copy(self):
         if self._dense is not None:
             return SymCOO(self._dense)
-        return SymCOO(list(self.data), list(self.row), list(self.col), self.shape, self.dtype)
+        return SymCOO(list(self._d), list(self._r), list(self._c), self.shape, self.dtype)
 
     def sum(self, axis=None):
         return self.toarray().sum(axis=axis)
@@ -260,7 +286,7 @@ class SymCOO:
     def T(self):
         if self._dense is not None:
             return SymCOO(self._dense.T)
-        return SymCOO(list(self.data), list(self.col), list(self.row), self.shape[::-1], self.dtype)
+        return SymCOO(list(self._d), list(self._c), list(self._r), self.shape[::-1], self.dtype)
 
     def __add__(self, o):
         return self.toarray() + (o.toarray() if isinstance(o, SymCOO) else o)
@@ -273,6 +299,10 @@ class SymCOO:
 
 
 def sym_coo_matrix(arg1, shape=None, dtype=None, copy=False):
+    if core.active() and isinstance(arg1, SymCOO):
+        return arg1.copy()
+    if core.active() and isinstance(arg1, tuple) and len(arg1) == 2 and isinstance(arg1[1], tuple):
+        arg1 = (_unlazy(arg1[0]), tuple(_unlazy(x) for x in arg1[1]))
     if not core.active() or not has_sym(arg1):
         a = unwrap(arg1) if core.active() else arg1
         return _sp.coo_matrix(a, shape=shape, dtype=dtype, copy=copy)
